@@ -25,7 +25,7 @@ for id in $IDS; do
       utils.go|bigendian.go) checks="$checks C10 C17";;
       decoder.go) checks="$checks C07 C10";;
       wasm/*|*_wasm.go|otp-js/*) checks="$checks C09 C20";;
-      internal/app/*) checks="$checks C09 C18 C19";;
+      internal/app/*) checks="$checks C09 C11 C12 C18 C19";;
     esac
   done
   checks=$(echo $checks | tr ' ' '\n' | sort -u | tr '\n' ' ')
